@@ -16,7 +16,13 @@ every entry lies inside them) and, on disjoint entries, the filling computed fro
 trn lines at character level, utterance ids padded with spaces / tabs on either side (and ids that differ
 only in their padding) come back verbatim, with one worker and under a pool behaviour.  For both a
 deliberately wrong definition (tier = first listed .. last listed; id stripped) is run through TLC and must
-be rejected by the family's invariant."""
+be rejected by the family's invariant.
+
+ctm times are counts of a unit that is part of the case: besides the millisecond, units so fine (2^-16 s, 10^-7 s, a
+duration of a few 2^-48 s on a 1/8 s grid) or so coarse (10^16 s) that write_ctm prints the fields in scientific
+notation.  The spec derives the notation of every field from its magnitude (Notation), states that the reader converts
+both notations (CtmReadable, part of CtmRoundTrip) and a reader that takes only positional decimals for numbers must be
+rejected by TLC (fault run CtmFieldOK <- CtmFieldPlainOnly)."""
 import io
 import os
 import sys
@@ -305,7 +311,13 @@ def check_pool(ctx, recs, schedules):
 
 # =============================================================================================
 # ctm
-CTM_UNITS = [10.0, 1000.0, 8.0]  # base units per second (x/8: dyadic, float arithmetic exact)
+CTM_UNITS = [10.0, 1000.0, 8.0]  # renderings of the ordinary unit: base units per second (x/8: dyadic, float arithmetic exact)
+
+
+def _ctm_unit(w):
+    """<<b, k>> of the spec (units of b^k seconds) as an exact pair of floats (numerator, denominator)"""
+    b, k = w
+    return (float(b) ** k, 1.0) if k >= 0 else (1.0, float(b) ** (-k))
 
 
 def ctm_build(rec, i):
@@ -313,8 +325,12 @@ def ctm_build(rec, i):
     ut = _tr.UTT_TABLES[(i // 3) % 3]
     wt = _tr.WAVE_TABLES[(i // 2) % 2]
     ct = _tr.CHAN_TABLES[(i // 5) % 2]
-    unit = CTM_UNITS[(i // 7) % 3]
-    transcripts = [(ut[j], [(tt[x["tok"]], x["s"] / unit, (x["s"] + x["d"]) / unit) for x in items])
+    if rec.get("ordinary", True):
+        su = du = (1.0, CTM_UNITS[(i // 7) % 3])
+    else:  # the case fixes the units: starts count units of su seconds, durations units of du seconds
+        su, du = _ctm_unit(rec["unit"]["s"]), _ctm_unit(rec["unit"]["d"])
+    start = lambda x: x["s"] * su[0] / su[1]
+    transcripts = [(ut[j], [(tt[x["tok"]], start(x), start(x) + x["d"] * du[0] / du[1]) for x in items])
                    for j, items in enumerate(rec["utts"])]
     kind = rec["kind"]
     if kind == "default":
@@ -324,12 +340,16 @@ def ctm_build(rec, i):
     else:
         m = {ut[j]: (wt[w - 1], ct[c - 1]) for j, (w, c) in enumerate(rec["wc"])}
         wkw, wc2utt = dict(utt2wc=m), {v: k for k, v in m.items()}
-    return tt, ut, unit, transcripts, wkw, wc2utt
+    return tt, ut, (su, du), transcripts, wkw, wc2utt
+
+
+def _is_sci(field):
+    return "e" in field.lower()
 
 
 def check_ctm_case(ctx, rec, i):
     data = _data()
-    tt, ut, unit, transcripts, wkw, wc2utt = ctm_build(rec, i)
+    tt, ut, (su, du), transcripts, wkw, wc2utt = ctm_build(rec, i)
     case = dict(fam="ctm", rec=rec, i=i, python=repr(transcripts), utt2wc=repr(wkw), wc2utt=repr(wc2utt))
     w = _write_both(ctx, "write_ctm", data.write_ctm, (transcripts,), wkw, case, "ctm")
     if w is None:
@@ -338,6 +358,16 @@ def check_ctm_case(ctx, rec, i):
     if a != b:
         ctx.violation(dict(site="write_ctm", kind="path_vs_file_bytes"),
                       "path wrote %r, open file wrote %r" % (b[:200], a[:200]), case)
+    # which fields the writer printed in scientific notation (the spec derives it from the magnitudes alone; how
+    # a writer prints a number is its own business as long as the reader gets the number back: informational)
+    fields = [ln.split() for ln in a.decode().splitlines() if ln.strip()]
+    sci_file = sorted((_is_sci(f[2]), _is_sci(f[3])) for f in fields if len(f) >= 5)
+    sci_spec = sorted((n[0] == "sci", n[1] == "sci") for n in rec.get("notes", []))
+    sci_seen = any(x or y for x, y in sci_file)
+    if sci_seen:
+        ctx.count("ctm_files_with_a_field_in_scientific_notation")
+    if "notes" in rec and sci_file != sci_spec:
+        ctx.count("informational_ctm_notation_differs_from_the_repr_model")
     try:
         if i % 2:
             got = data.read_ctm(pa, wc2utt)
@@ -345,7 +375,10 @@ def check_ctm_case(ctx, rec, i):
             with open(pa) as f:
                 got = data.read_ctm(f, wc2utt)
     except Exception as ex:
-        ctx.violation(dict(site="read_ctm", kind="exception"), "read of %r raised %r" % (a[:300], ex), case)
+        sig = dict(site="read_ctm", kind="exception")
+        if sci_seen:  # the reader refuses a file the writer wrote because of the way a number is written in it
+            sig["cls"] = "scientific_notation_refused"
+        ctx.violation(sig, "read of %r raised %r" % (a[:300], ex), case)
         return
     inv, uinv = _tr.inv_table(tt), {u: j + 1 for j, u in enumerate(ut)}
     got_abs = []
@@ -355,11 +388,11 @@ def check_ctm_case(ctx, rec, i):
             return
         its = []
         for x in items:
-            s, e = x[1] * unit, x[2] * unit
-            if x[0] not in inv or abs(s - round(s)) > 1e-6 or abs(e - round(e)) > 1e-6:
+            s, d = x[1] * su[1] / su[0], (x[2] - x[1]) * du[1] / du[0]  # in units of the start / of the duration
+            if x[0] not in inv or abs(s - round(s)) > 1e-6 or abs(d - round(d)) > 1e-6:
                 ctx.violation(dict(site="read_ctm", kind="value"), "token %r is not one that was written (%r)" % (x, transcripts), case)
                 return
-            its.append((int(round(s)), int(round(e)) - int(round(s)), inv[x[0]]))
+            its.append((int(round(s)), int(round(d)), inv[x[0]]))
         got_abs.append((uinv[u], its))
     canon = [(c["uid"], [(x["s"], x["d"], x["tok"]) for x in c["items"]]) for c in rec["canon"]]
     if sorted(u for u, _ in got_abs) != sorted(u for u, _ in canon):
@@ -381,12 +414,17 @@ def check_ctm_case(ctx, rec, i):
 
 
 def check_ctm(ctx, recs):
+    if not any(r["sci"] for r in recs) or not any(r["sci"] and r["kind"] == "dict" for r in recs):
+        raise MachineryError("the ctm universe holds no times that print in scientific notation (with and without a map)")
+    # (the ordinary cases first, in the order they always had: the concrete tables of a case depend on its index)
+    recs = [r for r in recs if r["ordinary"]] + [r for r in recs if not r["ordinary"]]
     for i, rec in enumerate(recs):
         flat = [[(x["s"], x["d"], x["tok"]) for x in items] for items in rec["utts"]]
         resorted = any(f != sorted(f) for f in flat) or [c["uid"] for c in rec["canon"]] != sorted(c["uid"] for c in rec["canon"])
-        ctx.case(key=("ctm", rec["utts"], rec["kind"], rec["wc"]), nontrivial=resorted or rec["kind"] == "dict",
-                 sample=dict(fam="ctm", utterances=rec["utts"], map_kind=rec["kind"], wave_chan=rec["wc"],
-                             expected=rec["canon"]) if i % 700 == 350 else None)
+        ctx.case(key=("ctm", rec["utts"], rec["kind"], rec["wc"], rec["unit"]),
+                 nontrivial=resorted or rec["kind"] == "dict" or rec["sci"],
+                 sample=dict(fam="ctm", utterances=rec["utts"], map_kind=rec["kind"], wave_chan=rec["wc"], unit=rec["unit"],
+                             notation=rec["notes"], expected=rec["canon"]) if i % 700 == 350 else None)
         check_ctm_case(ctx, rec, i)
         ctx.traces += 1
 
@@ -738,7 +776,8 @@ def selftest(ctx, recs, schedules):
 
 def run(ctx):
     ctx.rule = ("every case exported by TLC from Transcripts.tla (trn collections: <= 3 leaves, alternates nested "
-                "<= 2, <= 2-3 utterances; ctm collections x every wave/channel map; TextGrid transcripts on a grid "
+                "<= 2, <= 2-3 utterances; ctm collections x every wave/channel map, and the same collections in units of 2^-16 s, "
+                "1/8 s + 2^-48 s, 10^-7 s and 10^16 s whose fields print in scientific notation; TextGrid transcripts on a grid "
                 "crossing 10 s x precisions x point_tier options x tier name x start/end; transcripts x "
                 "token-map/unk/frame-shift/skip settings) is written with the real writer through a file and a "
                 "path, read back and compared with the exported value; read_trn(processes=W) is replayed under "
@@ -756,6 +795,9 @@ def run(ctx):
         "order of the returned list is informational (multiset compared) and filling is judged only where the entries "
         "are pairwise disjoint; the tier's start / end are compared with the earliest start / latest end unless "
         "start_time / end_time were passed (then only containment of the entries is judged)",
+        "ctm: times are counts of a unit b^k s (start and duration may have different units; 2^k units and the pair 1/8 s, "
+        "2^-48 s are exact in binary floating point, 10^-7 s is compared to within 1e-6 of a unit); which fields the writer "
+        "prints in scientific notation is compared with the spec's model of repr informationally",
         "ctm: the order among tokens with equal start time is left free; the order of utterances in the "
         "returned list is informational",
         "transcript_to_token: out-of-vocabulary tokens only together with an unk setting; the documented frame "
